@@ -12,6 +12,8 @@ PROPS = {
     'C04': 'format/version information and reported parameters',
     'C11': 'automatic mask minimises the documented penalty',
     'C15': 'module type labels match ISO regions',
+    'C07': 'EC codewords are the GF(256) polynomial remainder',
+    'C02': 'block layout, interleaving, RS codewords',
 }
 
 
@@ -87,6 +89,14 @@ MANIFEST_META = {
         'text': 'Same obligations as C03 restricted to labels: for every version and coordinate the label produced by create_matrix is iso_region(v,y,x), and placement/masking/format stages are proved (or, for place_on_matrix_data, assumed) not to change any label.',
         'note': 'The count identity #Data == 8*total+remainder is not yet mechanised. place_on_matrix_data assumed.',
     },
+    'C07': {
+        'text': 'Verus proves that polynomials::division returns, for every block content and every generator handed to it in exponent form, the state of schoolbook long division of data(x)*x^ec by g(x) over GF(2^8)/0x11D (multiplication defined by shift-and-add, not by tables), including the skip of zero leading coefficients; that the crate LOG/ANTILOG tables are alpha^i / the discrete logarithm (each of the 512 entries checked against the recursive definition); that the log/antilog product equals field multiplication (bit-vector lemma + induction); and that get_polynomial(v,l) is, coefficient by coefficient, the product polynomial (x-alpha^0)...(x-alpha^(ec-1)) of exactly the degree ISO Table 9 prescribes for all 160 (version, level) pairs.',
+        'note': 'The remainder is specified operationally (long division); uniqueness of the remainder / the quotient identity data*x^ec = q*g + r is a mathematical fact about the model that is not mechanised. Table 9 degrees come from the qrcode-0.12 transcription.',
+    },
+    'C02': {
+        'text': 'Verus proves that ecc_to_groups, data_codewords, max_bytes, missing_bits equal ISO Table 9 / the geometry formula for all 160 cells (with the consistency lemma blocks x sizes + blocks x ec = total), and that polynomials::structure lays out, for every data content, data codeword p of block b at the ISO interleaved position, EC codeword j of block b (the proved division remainder of that block) at dc + j*blocks + b, and zeros beyond the total (hence zero remainder bits before masking); all index arithmetic is proved in bounds.',
+        'note': 'All-zero syndromes and the floor(ec/2) correction capacity follow from EC = data*x^ec mod g with g = prod (x - alpha^i); that algebraic step is NOT mechanised (model-level mathematics, no code involved). placement::create_matrix (hands the bit string to placement) and place_on_matrix_data are still assumed contracts.',
+    },
     'C14': {
         'category': 'other',
         'text': 'Contract part: every QRBuilder setter is proved to write exactly its field and keep all others (last value wins); build(&self) cannot change the builder and its result satisfies a postcondition over the final field values only. Structural part: a scan of /repo/src for static mut / interior mutability / globals / time / randomness must be empty. No schedule exploration exists in this technique family.',
@@ -96,7 +106,7 @@ MANIFEST_META = {
 
 _NYB = 'not yet built in this round (work in progress; will be claimed or given a final reason)'
 NOT_APPLICABLE = {
-    'C01': _NYB, 'C02': _NYB, 'C07': _NYB,     'C10': _NYB, 'C17': _NYB, 'C18': _NYB,
+    'C01': _NYB,     'C10': _NYB, 'C17': _NYB, 'C18': _NYB,
     'C12': 'SVG text is built with format!/String::push_str/join and function-pointer calls; Verus has no format!/string-content reasoning and Kani on String code here is prohibitive (4 symbolic bytes > 20 min): no contract within reach can express it',
     'C13': 'pixels come out of usvg/resvg/tiny-skia/png (external crates, floating-point rasterisation); no repository function whose contract could state them and no verifier here reaches those crates',
     'C16': 'terminal renderer builds a String of multi-byte chars via push/push_str/format!; same limits as C12',
